@@ -1,4 +1,4 @@
-HOOK_COMMITS = ["c42e6f6"]
+HOOK_COMMITS = ["c42e6f6", "5e78192"]
 NOTES = ("See DESIGN.md. Every check regenerates Lean definitions from /repo's working tree, rebuilds the property's "
          "theorems, audits their axioms, and runs the differential correspondence between the compiled Lean model and "
          "the implementation built with -tags verif.")
